@@ -28,7 +28,7 @@ def data_variants():
         out.append(('marker-%s' % m.hex(), None, DM(m)))
         out.append(('marker-%s-incl' % m.hex(), None, DM(m, incl=True)))
         out.append(('marker-%s-noconsume' % m.hex(), None, DM(m, consume=False)))
-    for pat in (b'X+', b'[XY]', b'XY?'):
+    for pat in (b'X+', b'[XY]', b'XY?', b'(?<!Y)X', b'\\bX'):
         out.append(('regex-%s-incl' % pat.decode(), None, DR(pat, incl=True)))
         out.append(('regex-%s' % pat.decode(), None, DR(pat, incl=False)))
         out.append(('regex-%s-noconsume' % pat.decode(), None, DR(pat, incl=False, consume=False)))
